@@ -8,9 +8,9 @@
 from checks import frame
 
 def check(run):
-    run.assumptions += ['allocation never fails', 'NOT covered: CompoundParser/CompoundParserSimple string handling (no solver verdict, see C07), Crystal_ReadFile, add_compound_data']
+    run.assumptions += ['allocation never fails', 'formula scanner: one nesting level per string shape up to the C07 bounds (CBMC pointer/bounds/double-free/leak checks); NOT covered: Crystal_ReadFile']
     mods = ['c01', 'c02', 'c05', 'c08', 'c06', 'c14', 'c15', 'c07'] + (['c09', 'c10', 'c11', 'c13'] if run.tier == 'thorough' else [])
-    side = lambda oid: oid.endswith('/side') or '/acc/' in oid or '/step/' in oid or '/nist/' in oid or '/rn/' in oid or '/symbols/' in oid or '/ownership' in oid or oid.endswith('/comparators')
+    side = lambda oid: oid.endswith('/side') or '/acc/' in oid or '/step/' in oid or '/nist/' in oid or '/rn/' in oid or '/symbols/' in oid or '/ownership' in oid or oid.endswith('/comparators') or '/scanner/' in oid or '/combine/' in oid
     kept = frame.sweep(run, 'C04', keep=side, modules=mods)
     run.parallel(frame.error_api(run, 'C04'))
     cov = frame.coverage(run, run.obs)
